@@ -1874,6 +1874,21 @@ impl<'a> Socket<'a> {
             control = TcpControl::None;
         }
 
+        // Likewise, if the payload had to be cut at the right edge of the receive window, the FIN
+        // sits beyond the data we could accept: taking it now would acknowledge octets that were
+        // dropped and signal end-of-stream with data missing. Disregard it; it will be retransmitted.
+        if control == TcpControl::Fin
+            && !matches!(self.state, State::Listen | State::SynSent)
+            && window_end < segment_end
+        {
+            tcp_trace!(
+                "ignoring FIN because the segment extends past the receive window. window_end={} segment_end={}",
+                window_end,
+                segment_end
+            );
+            control = TcpControl::None;
+        }
+
         // Validate and update the state.
         match (self.state, control) {
             // RSTs are not accepted in the LISTEN state.
